@@ -106,4 +106,64 @@ example :
       [("accept", "*/*"), ("host", "example.com")]⟩ := by
   decide
 
+/-! ## Without any well-formedness hypothesis -/
+
+theorem setHostHeader_method (r : Req) : (setHostHeader r).method = r.method := by
+  unfold setHostHeader; split
+  · rfl
+  · split <;> rfl
+
+/-- **C13 (the stamp matches the connection), every request.** Whatever the request - well-formed or not, any
+    version constant it carries - if it is put on the wire at all it carries the connection's protocol version and
+    the caller's method. -/
+theorem C13_version_matches (c : Conn) (r : Req) (s : Sent) (h : send c r = .sent s) :
+    s.version = c ∧ s.method = r.method := by
+  cases c with
+  | h1 =>
+    simp only [send] at h
+    split at h
+    · simp at h
+    · simp only [Outcome.sent.injEq] at h
+      subst h
+      exact ⟨rfl, setHostHeader_method r⟩
+  | h2 =>
+    simp only [send] at h
+    split at h
+    · simp at h
+    · simp only [Outcome.sent.injEq] at h
+      subst h
+      exact ⟨rfl, rfl⟩
+
+/-- **C13 (HTTP/1 always names its host).** Every request with a URI host that goes out on an HTTP/1 connection
+    carries a Host header - whatever its scheme, method or other headers. -/
+theorem C13_h1_host_present (r : Req) (s : Sent) (hh : r.uri.host.isSome = true) (h : send .h1 r = .sent s) :
+    hasHeader s.headers "host" = true := by
+  obtain ⟨hst, hhst⟩ := Option.isSome_iff_exists.mp hh
+  simp only [send] at h
+  split at h
+  · simp at h
+  · simp only [Outcome.sent.injEq] at h
+    subst h
+    simp only [setHostHeader, hhst]
+    split
+    · assumption
+    · simp [hasHeader]
+
+/-- … and no request goes out on an HTTP/2 connection with one. -/
+theorem C13_h2_no_host (r : Req) (s : Sent) (h : send .h2 r = .sent s) : hasHeader s.headers "host" = false := by
+  simp only [send] at h
+  split at h
+  · simp at h
+  · simp only [Outcome.sent.injEq] at h
+    subst h
+    simp [hasHeader, removeHeaders]
+
+/-- non-vacuity: a request carrying the HTTP/1.0 constant and no scheme, on both kinds of connection -/
+example :
+    let r : Req := ⟨false, "GET", ⟨none, some "example.com", some 8080, "/x", none⟩, .h10, [("upgrade", "h2c")]⟩
+    send .h1 r = .sent ⟨"GET", ⟨none, some "example.com", some 8080, "/x", none⟩, .h1,
+      [("upgrade", "h2c"), ("host", "example.com:8080")]⟩ ∧
+    send .h2 r = .sent ⟨"GET", ⟨none, some "example.com", some 8080, "/x", none⟩, .h2, []⟩ := by
+  decide
+
 end Hd.Wire
